@@ -2,6 +2,7 @@ import HdVerif.Model.Basic
 import HdVerif.Generated.T9a
 import HdVerif.Generated.T9b
 import HdVerif.Generated.T9c
+import HdVerif.Generated.T9d
 import HdVerif.Generated.T10a
 import HdVerif.Generated.T10b
 import HdVerif.Generated.T10c
@@ -622,8 +623,10 @@ def padArray (v : Vol) (f : I3 → I3) (o : PadOpts) : Except ErrKind ((I3 → L
   match PadMode.parse o.mode with
   | none => .error .value
   | some mode =>
-    let stat := mode == .minimum || mode == .maximum || mode == .mean || mode == .median
-    let perChannel := o.perChannel && stat && !(v.cshape.isEmpty || v.cshape == [1])
+    -- T9d: the decision of `Volume.pad` whether to pad channel by channel
+    match padPerChannel o.mode o.perChannel (Int.ofNat v.cshape.length) (v.cshape == [1]) with
+    | .error e => .error e
+    | .ok perChannel =>
     match mode with
     | .constant =>
       let c := castTo v.isInt o.cval
